@@ -33,3 +33,10 @@ Proof.
   - repeat constructor; cbn; lia.
   - exact ex_total_hyps.
 Qed.
+
+(* the sharp threshold of the T4 family: 8 restarts of the re-trim loop succeed, 10 raise *)
+Example stair5_ok : snd (plugin_iter 3 (stair_deps 5)) = None.
+Proof. vm_compute. reflexivity. Qed.
+
+Example stair6_fails : plugin_iter 3 (stair_deps 6) = ([], Some E_TOO_MANY_PASSES).
+Proof. vm_compute. reflexivity. Qed.
